@@ -650,7 +650,7 @@ def nocr_docs(seed, tier, quick, thorough):
 
 class C14(Check):
     rule = DOC_RULE + "; documents without CR, each also with LF->CRLF, LF->CR and an appended final newline; every block kind left open at end of input"
-    obligations = [("main", "PropsFull", "C14_padding"), ("main", "PropsFull", "C14_cr_parse"), ("main", "PropsFull", "C14_cr_render"), ("main", "PropsFull", "C14_final_newline"), ("main", "PropsFull", "C14_crlf_nobracket"), ("main", "PropsFull", "C14_crlf_limit"), ("stream", "C14b", "skip_blank_lines"), ("stream", "C14b", "nb_shift"), ("main", "Rec15", "parseSetext_correct"), ("recog", "TB", "parseThematicBreak_correct"),
+    obligations = [("main", "PropsFull", "C14_padding"), ("main", "PropsFull2", "C14_final_newline_full"), ("main", "PropsFull", "C14_cr_parse"), ("main", "PropsFull", "C14_cr_render"), ("main", "PropsFull", "C14_final_newline"), ("main", "PropsFull", "C14_crlf_nobracket"), ("main", "PropsFull", "C14_crlf_limit"), ("stream", "C14b", "skip_blank_lines"), ("stream", "C14b", "nb_shift"), ("main", "Rec15", "parseSetext_correct"), ("recog", "TB", "parseThematicBreak_correct"),
                    ("recog", "ATXProof", "parseATXHeading_correct"),
                    ("main", "EolInv", "recognizers_eol_invariant"), ("main", "EolInv", "recognizers_eolRun_invariant"),
                    ("main", "BlankPrefix", "parseBlocks_blank_prefix_partial"), ("main", "BlankPrefix", "skipLoop_blank_prefix_partial"),
